@@ -207,6 +207,11 @@ func runOneMatrix(c mxCase, base string, idx int) (sx.V, sx.V) {
 			}
 			return
 		}
+		// the protocol the client settled on must be one it allows, whatever happens next
+		if proto := cl.Protocol(); c.Launch != 2 && ((proto == plugin.ProtocolNetRPC && !(c.AllowNet || c.AllowNil)) || (proto == plugin.ProtocolGRPC && !c.AllowGrpc)) {
+			class = 6
+			return
+		}
 		// first use
 		rc, err := cl.Client()
 		if err != nil {
